@@ -132,7 +132,7 @@ pub fn run(seed: u64, count: usize, outdir: &str) -> std::io::Result<i32> {
                     if !ok { nb += 1; if firstn.is_none() { firstn = Some(format!("pixel ({}, {}) voxel {}: normal {:?} gradient {:?}", s.0, s.1, s.2, n, want)); } }
                 }
                 // min/max ties on the surface make the gradient ambiguous at isolated voxels: only systematic disagreement counts
-                if nb > 0 && nb * 50 > surf.len() { bad.push(format!("kind=wrong-normal backend={name} {nb} of {} surface pixels; first {}", surf.len(), firstn.unwrap())); }
+                if nb >= 8 && nb * 10 > surf.len() { bad.push(format!("kind=wrong-normal backend={name} {nb} of {} surface pixels; first {}", surf.len(), firstn.unwrap())); }
             }
             if name == "vm" {
                 il.push_str("img");
